@@ -14,7 +14,9 @@ package main
 //   - defaultPatternText: the literal assigned to `defaultPattern` in newRouteRegexp;
 //   - emptyPathReplacement: what FilterPath returns for "" (recognised shape: `if x == "" { return LIT }; return x`);
 //   - toHandlerRouteParamsExpr / toHandlerFreshRouteParams: what ToHandler puts into the `RouteParams` field of the
-//     per-request mux.Message, and whether that is an object built for this request alone.
+//     per-request mux.Message, and whether that is an object built for this request alone;
+//   - muxApplyDirect: for every options.MuxHandlerOpt.<X>Apply whether it installs `mux.ToHandler[…](o.m)` itself;
+//   - uriPathOptionID: the number of the Uri-Path option.
 //
 // Lock tracking is deliberately simple and fails closed: Lock/RLock/Unlock/RUnlock must be top-level statements of the
 // function body (or `defer … Unlock()` directly after the Lock), never nested in if/for/switch/closures; a `return`
@@ -186,6 +188,8 @@ func genRouterLockShape(g *gen, repo string) {
 	defPat := rlDefaultPattern(repo)
 	empty := rlFilterPath(repo)
 	rpFresh, rpExpr := rlToHandlerRouteParams(repo)
+	applies := rlMuxApplies(repo)
+	uriPathID := rlOptionIDConst(repo, "URIPath")
 
 	var b strings.Builder
 	b.WriteString("namespace CoapVerif.Generated.RouterLockShape\n\n")
@@ -229,6 +233,12 @@ func genRouterLockShape(g *gen, repo string) {
 	b.WriteString("def toHandlerRouteParamsExpr : String := " + rlLeanStr(rpExpr) + "\n\n")
 	b.WriteString("/-- … is it an object built for this request alone (`new(RouteParams)` or `&RouteParams{}`)? -/\n")
 	fmt.Fprintf(&b, "def toHandlerFreshRouteParams : Bool := %v\n\n", rpFresh)
+	b.WriteString("/-- options/commonOptions.go: every `MuxHandlerOpt.<X>Apply` with whether its body is exactly\n    `cfg.Handler = mux.ToHandler[…](o.m)` — the router adapter installed directly, nothing in between (AST) -/\n")
+	b.WriteString("def muxApplyDirect : List (String × Bool) := " + natList(applies, func(a rlApply) string {
+		return fmt.Sprintf("(%s, %v)", rlLeanStr(a.name), a.direct)
+	}) + "\n\n")
+	b.WriteString("/-- message/option.go: `URIPath OptionID = …` (AST) -/\n")
+	fmt.Fprintf(&b, "def uriPathOptionID : Nat := %d\n\n", uriPathID)
 	b.WriteString("end CoapVerif.Generated.RouterLockShape\n")
 	g.write("RouterLockShape.lean", b.String())
 }
@@ -479,6 +489,91 @@ func rlToHandlerRouteParams(repo string) (bool, string) {
 		}
 	}
 	return fresh, sb.String()
+}
+
+type rlApply struct {
+	name   string
+	direct bool
+}
+
+// rlMuxApplies lists the methods `MuxHandlerOpt.<X>Apply(cfg …)`. Each must consist of the single statement
+// `cfg.Handler = <expr>` (anything else fails closed); direct = <expr> is `mux.ToHandler[…](<recv>.m)`.
+func rlMuxApplies(repo string) []rlApply {
+	_, f := parseFile(repo, "options/commonOptions.go")
+	var out []rlApply
+	for _, d := range f.Decls {
+		fd, ok := d.(*ast.FuncDecl)
+		if !ok || fd.Recv == nil || len(fd.Recv.List) != 1 || recvTypeName(fd.Recv.List[0].Type) != "MuxHandlerOpt" {
+			continue
+		}
+		if !strings.HasSuffix(fd.Name.Name, "Apply") {
+			fail("RouterLockShape: MuxHandlerOpt has a method %s that is not an …Apply", fd.Name.Name)
+		}
+		if len(fd.Recv.List[0].Names) != 1 || fd.Type.Params == nil || len(fd.Type.Params.List) != 1 || len(fd.Type.Params.List[0].Names) != 1 {
+			fail("RouterLockShape: MuxHandlerOpt.%s: receiver/parameter shape", fd.Name.Name)
+		}
+		recv := fd.Recv.List[0].Names[0].Name
+		cfg := fd.Type.Params.List[0].Names[0].Name
+		if fd.Body == nil || len(fd.Body.List) != 1 {
+			fail("RouterLockShape: MuxHandlerOpt.%s: body is not a single statement", fd.Name.Name)
+		}
+		as, ok := fd.Body.List[0].(*ast.AssignStmt)
+		if !ok || as.Tok != token.ASSIGN || len(as.Lhs) != 1 || len(as.Rhs) != 1 {
+			fail("RouterLockShape: MuxHandlerOpt.%s: body is not `cfg.Handler = …`", fd.Name.Name)
+		}
+		lhs, ok := as.Lhs[0].(*ast.SelectorExpr)
+		if !ok || lhs.Sel.Name != "Handler" || identName(lhs.X) != cfg {
+			fail("RouterLockShape: MuxHandlerOpt.%s: body is not `cfg.Handler = …`", fd.Name.Name)
+		}
+		direct := false
+		if call, ok := as.Rhs[0].(*ast.CallExpr); ok && len(call.Args) == 1 {
+			fun := call.Fun
+			switch t := fun.(type) {
+			case *ast.IndexExpr:
+				fun = t.X
+			case *ast.IndexListExpr:
+				fun = t.X
+			}
+			if sel, ok := fun.(*ast.SelectorExpr); ok && identName(sel.X) == "mux" && sel.Sel.Name == "ToHandler" {
+				if arg, ok := call.Args[0].(*ast.SelectorExpr); ok && identName(arg.X) == recv && arg.Sel.Name == "m" {
+					direct = true
+				}
+			}
+		}
+		out = append(out, rlApply{fd.Name.Name, direct})
+	}
+	if len(out) == 0 {
+		fail("RouterLockShape: no MuxHandlerOpt.…Apply method found")
+	}
+	sort.Slice(out, func(i, j int) bool { return out[i].name < out[j].name })
+	return out
+}
+
+// rlOptionIDConst reads `<name> OptionID = <int>` from message/option.go.
+func rlOptionIDConst(repo, name string) uint64 {
+	_, f := parseFile(repo, "message/option.go")
+	var vals []uint64
+	for _, d := range f.Decls {
+		gd, ok := d.(*ast.GenDecl)
+		if !ok || gd.Tok != token.CONST {
+			continue
+		}
+		for _, sp := range gd.Specs {
+			vs := sp.(*ast.ValueSpec)
+			for i, nm := range vs.Names {
+				if nm.Name == name {
+					if identName(vs.Type) != "OptionID" || i >= len(vs.Values) {
+						fail("RouterLockShape: constant %s is not `%s OptionID = <int>`", name, name)
+					}
+					vals = append(vals, intLit(vs.Values[i]))
+				}
+			}
+		}
+	}
+	if len(vals) != 1 {
+		fail("RouterLockShape: expected one constant %s, found %d", name, len(vals))
+	}
+	return vals[0]
 }
 
 func rlFilterPath(repo string) string {
